@@ -243,10 +243,14 @@ def _keyed_reuse(repo, run, rid, owner):
         run.judged(rid, "%s.__call__ does not reuse final_rhs" % owner, ok=True)
     for st in reuse:
         guards = [a for a in ancestors(st) if isinstance(a, ast.If)]
-        test_src = " and ".join(src(g.test) for g in guards)
+        from ..sym import inline_locals
+        from ..extract import _subst
+        lenv = inline_locals(call)      # a guard hoisted into a named boolean local (`continues = <keys match>; if continues:`) is the same guard
+        tests = [_subst(g.test, lenv) for g in guards]
+        test_src = " and ".join(src(t_) for t_ in tests)
         keyed_t = keyed_y = False
-        for g in guards:
-            for cmp_ in [n for n in ast.walk(g.test) if isinstance(n, ast.Compare)]:
+        for gt in tests:
+            for cmp_ in [n for n in ast.walk(gt) if isinstance(n, ast.Compare)]:
                 sides = [src(cmp_.left)] + [src(x) for x in cmp_.comparators]
                 if any("final_time" in s for s in sides) and any(s == Q[2] or s.endswith("initial_time") for s in sides) and all(isinstance(o, ast.Eq) for o in cmp_.ops):
                     keyed_t = True
